@@ -730,7 +730,7 @@ func TestC15(t *testing.T) {
 	rec.Flush()
 	total := 400 / cfg.NShards
 	if cfg.Thorough() {
-		total = 4000 / cfg.NShards
+		total = 20000 / cfg.NShards
 	}
 	if total < 1 {
 		total = 1
